@@ -29,6 +29,7 @@ props! {
     c11 => "C11",
     c12 => "C12",
     c14 => "C14",
+    c26 => "C26",
     c27 => "C27",
     c28 => "C28",
     c29 => "C29",
@@ -36,6 +37,7 @@ props! {
     c32 => "C32",
     c33 => "C33",
     c35 => "C35",
+    c36 => "C36",
 }
 
 pub mod c05syn;
